@@ -481,9 +481,9 @@ class Responder(object):
         Service application
         """
         if not self.closed and not self.ended:
-            if self.iterator is None:  # initiate application
-                self.iterator = iter(self.app(self.environ, self.start))
             try:
+                if self.iterator is None:  # initiate application
+                    self.iterator = iter(self.app(self.environ, self.start))
                 msg = next(self.iterator)
             except StopIteration as ex:
                 if hasattr(ex, "value") and ex.value:
